@@ -16,7 +16,10 @@ RULE = ("PAGofMAG(n): the PAG (computed by the extracted Coq spec pag_of_mag fro
         "under 10-100 node labelings (permuted, scattered ints) / insertion orders; REPEAT / stale-state stream over a share of "
         "every stream: warm-up call on a different PAG with the same node and edge counts in the same object, in-place edit "
         "into the target, judged call on the object / on its copy() / again after the caller edited the returned graph; "
-        "distinct by (canonical PAG, repeat mode, warm-up PAG); "
+        "the chordal stream includes the 4-node diamond, cliques and cliques minus an edge (4-5 nodes; 6 in thorough) and dense random chordal "
+        "graphs (6 nodes; 6-7 in thorough); MARKED-TRIPLES stream (beyond the property's wording: the closure inside pag_to_mag is the one with "
+        "excluded_triples EMPTY): every 3-subset of the nodes marked on the source PAG or on a live copy of it, same verdicts "
+        "expected; a few cases with identity-hashed label objects; distinct by (canonical PAG, repeat mode, warm-up PAG, marks, labels); "
         "non-trivial = the PAG has at least one circle mark")
 EXHAUSTIVE = {"quick": "PAGofMAG(n) n<=3; MARKS(n) n<=3", "thorough": "PAGofMAG(n) n<=4; MARKS(n) n<=3"}
 TRUSTED = ["PAG.copy / remove_edge / orient_uncertain_edge, ADMG.add_edge taken at face value",
@@ -26,7 +29,7 @@ ASSUMPTIONS = ["at most one of the ten edge kinds per node pair (simple marks)",
 IMPL_TIMEOUT = 20
 SPOT_N = 10
 VERDICTS = ["structure", "acyclic", "no-almost-directed-cycle", "unshielded-colliders-marked", "valid-mag", "markov-equivalent",
-            "hypothesis:pag-invariants(pag_hypsb)", "hypothesis:rounds-extendable(rounds_ok_b)"]
+            "hypothesis:pag-invariants(pag_hypsb)", "hypothesis:rounds-extendable(rounds_ok_small_b, components with <= 8 o-o edges)"]
 
 LEVEL_TEXT = ("Coq proofs about the executable model pag_to_mag_model (three phases, Meek closure of C08, repaired assembly): "
               "UNBOUNDED, every mark graph — p2m_structure (nodes, adjacencies, no circle left, every arrowhead/tail kept, every "
@@ -129,6 +132,26 @@ def chordal_shapes(rng, tier):
                 nb[c].add(v)
                 edges.append((c, v))
         shapes.append(("chordal%d" % n, n, edges))
+    # small and DENSE components: the diamond with a chord, cliques, cliques minus an edge, dense random chordal graphs
+    shapes.append(("diamond4", 4, [(0, 1), (0, 2), (1, 2), (1, 3), (2, 3)]))
+    for n in ((4, 5) if tier == "quick" else (4, 5, 6)):
+        full = [(a, b) for a in range(n) for b in range(a + 1, n)]
+        shapes.append(("clique%d" % n, n, full))
+        shapes.append(("cliqueminus%d" % n, n, full[1:]))
+    for i in range(6 if tier == "quick" else 40):
+        n = 6 if tier == "quick" else rng.choice([6, 6, 7])
+        edges, nb = [], {0: set()}
+        for v in range(1, n):
+            u = rng.randrange(v)
+            clique = [u]
+            for w in rng.sample(sorted(nb[u]), len(nb[u])):
+                if rng.random() < 0.85 and all(w in nb[c] for c in clique):
+                    clique.append(w)
+            nb[v] = set(clique)
+            for c in clique:
+                nb[c].add(v)
+                edges.append((c, v))
+        shapes.append(("chordaldense%d" % n, n, edges))
     return shapes
 
 
@@ -139,9 +162,13 @@ def chordal_cases(rng, tier):
     for name, n, edges in chordal_shapes(rng, tier):
         pos = {v: i for i, v in enumerate(mcs_order(n, edges))}
         dag = [(a, b) if pos[a] < pos[b] else (b, a) for a, b in edges]
-        reps = (100 if not name.startswith("chordal") else 30) * (1 if tier == "quick" else 3)
+        reps = (100 if not name.startswith(("chordal", "clique")) else 30) * (1 if tier == "quick" else 3)
         if n == 7:
-            reps //= 3      # the oracle's Markov-equivalence check on 7 nodes dominates the run time
+            reps //= 5      # the oracle's Markov-equivalence check on 6-7 nodes dominates the run time
+        elif n == 6:
+            reps = reps * 3 // 5
+        if name.startswith("chordaldense"):
+            reps = reps * 2 // 5
         for r in range(reps):
             perm = list(range(n))
             rng.shuffle(perm)
@@ -176,7 +203,7 @@ def _sig(g):
     return (len(g["V"]), sum(len(g[k]) for k in "DBUC"))
 
 
-def gen_cases(tier, rng):
+def _gen_cases(tier, rng):
     """base streams, then the REPEAT / stale-state stream: pag_to_mag is first called on a DIFFERENT PAG g0 with the same
     node and edge counts built in the same object (result discarded), the object is edited in place into g (all edges
     removed, g's edges added), and the judged call is made on that object ("same"), on its copy() ("copy"), or a second
@@ -203,12 +230,44 @@ def gen_cases(tier, rng):
         seed = rng.randrange(1 << 30)
         g0 = rng.choice(others) if others else g
         yield dict(c, kind="rep-" + c["kind"], rep=["same", "same", "copy", "result"][seed % 4], g0=g0)
+    # MARKED-TRIPLES stream: pag_to_mag runs its closure on a fresh temporary CPDAG (excluded_triples empty); here ANOTHER live
+    # object carries marked triples: the source PAG itself ("pag": every 3-subset of its nodes marked with
+    # mark_unfaithful_triple) or a live copy() of it ("copy"); expected = a result that passes the same verdicts
+    for i, c in enumerate(base):
+        n = len(c["g"]["V"])
+        if n < 3 or not c["g"]["C"]:
+            continue
+        if c["kind"].startswith("pagofmag"):
+            take = n <= 3 or i % 6 == 0
+        elif c["kind"].startswith("marks"):
+            take = i % 8 == 0
+        elif c["kind"] == "rand":
+            take = i % 6 == 0
+        else:
+            take = n <= 6 and i % 2 == 0
+        if take:
+            yield dict(c, kind="tri-" + c["kind"], marks=["pag", "pag", "copy"][i % 3])
+    # identity-hashed label objects (pag_to_mag copies the PAG: a deep copy of the labels would change the nodes)
+    for i, c in enumerate(base):
+        if "labmap" not in c and (c["kind"] == "pagofmag3" or (c["kind"] in ("rand", "path5", "strip5", "diamond4") and i % 10 == 0)):
+            yield dict(c, kind="obj-" + c["kind"], _lab="obj")
 
 
 def _full_model(case):
     # on 7 nodes the model's own result gets the structural verdict only (the vm_compute spot check of the full verdicts
     # would take minutes); the implementation's result always gets all six verdicts from the extracted oracle
     return case["mode"] == 1 and len(case["g"]["V"]) <= 6
+
+
+def gen_cases(tier, rng):
+    """exhaustive streams in their order; the structured / repeat / marked streams interleaved (the 6-7 node components cost
+    far more oracle time than the rest: interleaving spreads them over the worker chunks)"""
+    head, tail = [], []
+    for c in _gen_cases(tier, rng):
+        (head if c["kind"].startswith(("pagofmag", "marks")) else tail).append(c)
+    rng.shuffle(tail)
+    yield from head
+    yield from tail
 
 
 def encode(case):
@@ -244,6 +303,13 @@ def run_impl(case):
     else:
         P, lab, inv0 = gr.to_pag(g, case)
     inv = (lambda x: back[inv0(x)]) if lm else inv0
+    keep = []
+    if case.get("marks"):
+        import itertools
+        Q = P.copy() if case["marks"] == "copy" else P
+        for t in itertools.combinations(list(Q.nodes), 3):
+            Q.mark_unfaithful_triple(*t)
+        keep.append(Q)
     before = gr.snapshot(P)
     R = pag_to_mag(P)
     if rep == "result":
@@ -286,7 +352,8 @@ def nontrivial(case, model):
 
 
 def key(case):
-    return (gr.canon(case["g"]), case.get("rep"), gr.canon(case["g0"]) if "g0" in case else None)
+    return (gr.canon(case["g"]), case.get("rep"), gr.canon(case["g0"]) if "g0" in case else None, case.get("marks"),
+            case.get("_lab"))
 
 
 def shrink(case):
